@@ -39,7 +39,7 @@ func c12Cfg() *DeclCfg {
 			"string", "string", "string", "duration", "[]int", "[]string", "[]string", "[]float64", "[]uint8", "map[string]int", "map[string]string", "map[string]string",
 			"map[int]string", "map[string]bool", "map[string]float64", "*int", "*string", "*bool", "*uint16", "um", "func(string)", "[]bool", "filename", "ulist", "level", "[]level", "map[string]level"},
 		MinOpts: 1, MaxOpts: 5, MaxGroups: 2, MaxSub: 2, MaxCmds: 3, MaxDepth: 3, Exec: true,
-		Defaults: true, Hidden: true, NoIni: true, IniName: true, Namespaces: true, Base: true, Init: false, Descriptions: true, Choices: false, DottedCmds: true, MultiLine: true, BaseMulti: true, Optional: true, DupFields: true, CapCmds: true,
+		Defaults: true, Hidden: true, NoIni: true, IniName: true, Namespaces: true, Base: true, Init: false, Descriptions: true, Choices: false, DottedCmds: true, MultiLine: true, BaseMulti: true, Optional: true, DupFields: true, CapCmds: true, Colliding: true,
 		ParserOpts: []uint{0, optHelpFlag, optHelpFlag | optPassDoubleDash, optIgnoreUnknown},
 	}
 }
@@ -214,6 +214,7 @@ func (propC12) Judge(sc *Scenario) *Verdict {
 		ois[oi.Path] = oi
 	}
 	hiddenPath := hiddenPaths(sc.Decl)
+	collide := sectionCollision(sc.Decl)
 	// every operation must succeed: the text is the library's own output
 	for i, r := range o.Ops {
 		if ab := abnormal(&r); ab != "" {
@@ -267,6 +268,7 @@ func (propC12) Judge(sc *Scenario) *Verdict {
 				"kind": oi.O.Kind, "written": written[path], "back": back[path], "value_class": c12ValueClass(oi.O.Kind, written[path]),
 				"has_default": fmt.Sprint(len(oi.O.Default) > 0), "has_init": fmt.Sprint(oi.O.Init != nil),
 				"include_defaults": fmt.Sprint(iniOpts&iniIncludeDefaults != 0), "read_failed": fmt.Sprint(readFailed),
+				"section_collision": fmt.Sprint(collide),
 			}
 			if len(oi.O.Default) > 0 {
 				// what the default tags denote (harness's own converter), to tell "the default
@@ -290,7 +292,7 @@ func (propC12) Judge(sc *Scenario) *Verdict {
 			if rd.Err == "" {
 				bad = &ps
 			}
-			attrs := map[string]string{"include_defaults": fmt.Sprint(iniOpts&iniIncludeDefaults != 0), "msg": string(bad.Msg), "line": fmt.Sprint(bad.Line)}
+			attrs := map[string]string{"include_defaults": fmt.Sprint(iniOpts&iniIncludeDefaults != 0), "msg": string(bad.Msg), "line": fmt.Sprint(bad.Line), "section_collision": fmt.Sprint(collide)}
 			// which written line does the error point at?
 			lines := strings.Split(text, "\n")
 			if bad.Line > 0 && int(bad.Line) <= len(lines) {
@@ -303,6 +305,43 @@ func (propC12) Judge(sc *Scenario) *Verdict {
 		}
 	}
 	return finishC12(v, sc, o, classes)
+}
+
+// sectionCollision: do two different groups of the declaration answer to the same
+// INI section name (group names are matched without regard to case)?
+func sectionCollision(d *DeclSpec) bool {
+	seen := map[string]bool{}
+	dup := false
+	add := func(s string) {
+		s = strings.ToLower(s)
+		if seen[s] {
+			dup = true
+		}
+		seen[s] = true
+	}
+	d.eachGroupSpec(func(g *GroupSpec, cp []string, own bool) {
+		s := strings.Join(cp, ".")
+		if !own {
+			if s != "" {
+				s += "."
+			}
+			s += g.Name
+		}
+		if g == d.Root && false {
+			return
+		}
+		add(s)
+	})
+	for _, c := range d.allCmds() {
+		own := false
+		if c.C.Own != nil && !c.C.Exec {
+			own = true
+		}
+		if !own {
+			add(strings.Join(c.Path, "."))
+		}
+	}
+	return dup
 }
 
 func hiddenPaths(d *DeclSpec) map[string]bool {
